@@ -16,6 +16,7 @@ macro_rules! harness {
 
 const DEC: usize = dec::HDR + dec::BUF;
 const DECS: usize = dec::HDR + dec::BUF_SMALL;
+const DECM: usize = dec::HDR + dec::BUF_MID;
 harness!(k_dec_word, DEC, 6, dec::dec_word::<{ dec::BUF }>);
 harness!(k_dec_words, DEC, 6, dec::dec_words::<{ dec::BUF }>);
 harness!(k_dec_bit64, DEC, 6, dec::dec_bit64::<{ dec::BUF }>);
@@ -37,6 +38,7 @@ macro_rules! harness_nofmt {
     };
 }
 harness_nofmt!(k_dec_string, DEC, 14, dec::dec_string::<{ dec::BUF }>);
+harness_nofmt!(k_dec_string_mid, DECM, 10, dec::dec_string::<{ dec::BUF_MID }>);
 harness_nofmt!(k_dec_string_small, DECS, 8, dec::dec_string::<{ dec::BUF_SMALL }>);
 harness!(k_dec_limit, DEC, 6, dec::dec_limit::<{ dec::BUF }>);
 harness!(k_dec_typed, DEC, 6, dec::dec_typed::<{ dec::BUF }>);
